@@ -157,3 +157,37 @@ META.update({
                 text="Exploration. Polynomials of admissible degree must come out as P(instant) within 64-256 eps*max|P|; sinusoids within the classical Lagrange error bound; Nearest must return the sample at floor(instant).",
                 note="Instants are measured, not assumed; a uniform shift of all instants is C14's business, not C08's.", design="5/C08"),
 })
+
+PLANS.update({
+    "C14": {"stages": [st("rel", "delay", 6000, 120000, death_prop="C03", floor={"pulses_measured": 3000})]},
+    "C15": {"stages": [
+        st("rel", "simd", 8000, 200000, death_prop="C15", floor={"kernel_evaluations": 500000}),
+        st("asan", "simd", 3000, 60000, death_prop="C15", reseed=True),
+        st("miri-avx", "simd", 32, 480, profile="tiny", death_prop="C15", reseed=True, env={"RVMON_NO_FFT": "1"}, timeout={"quick": 900, "thorough": 7200}),
+        st("miri-sse", "simd", 32, 480, profile="tiny", death_prop="C15", reseed=True, tiers=["thorough"], timeout={"thorough": 7200}),
+    ]},
+    "C18": {"stages": [
+        st("rel", "thr", 160, 6000, death_prop="C18", floor={"calls_executed_concurrently": 5000, "migrations_between_threads": 500}, max_shards=4),
+        st("tsan", "thr", 48, 1200, death_prop="C18", reseed=True, max_shards=4, env={"TSAN_OPTIONS": "halt_on_error=1 abort_on_error=0 exitcode=66"}),
+        st("miri", "thr", 16, 128, profile="tiny", death_prop="C18", reseed=True, miri_seed_per_shard=True, timeout={"quick": 900, "thorough": 7200}),
+    ]},
+})
+RULES.update({
+    "C14": "case = configuration (+ optional ratio set before the first call) + Gaussian pulse at a random input position; the first moment of the whole output stream is compared with n*ratio + output_delay(); "
+           "the README recipe is executed literally on the same stream; trivial = none",
+    "C15": "75% kernel cases: Scalar/AVX/SSE interpolators from identical parameters, sinc_len swept over every multiple of 8 up to 512, subindices incl. first/last, slice start offsets 0..8, NaN outside the window, "
+           "5 waveform styles (dynamic range 1e600 / 1e60, +-0, denormals); 25% stream cases: one resampler per kernel via new_with_interpolator plus the dispatching constructor over a random history",
+    "C18": "case = 4..24 work items (configuration, history, signal, sample type) executed single-threaded (reference, twice) and then by 2/4/8/16 threads taking instances from a shared pool 1..4 calls at a time; "
+           "distinct = distinct (thread count, item count, case) tuples; per-call hashes cover all output bits, counts and getters",
+})
+META.update({
+    "C14": dict(technique="runtime monitoring: first-moment (centroid) measurement of a Gaussian pulse through the real stream vs output_delay(), README recipe executed literally",
+                text="Exploration. For random configurations and pulse positions the measured centroid of the output must equal n*ratio + output_delay() within max(1,ratio)+1 frames, and the recipe output must contain the whole pulse unshifted.",
+                note="Pulse sigma >= 4/min(1,ratio) input frames so that the non-anti-aliased types pass it; first moments are insensitive to gain.", design="5/C14"),
+    "C15": dict(technique="runtime monitoring: direct differential calls of the public Scalar/AVX/SSE kernels against a doubled-precision reference with a sound rounding bound, NaN poisoning outside the window; same workload under ASan and Miri (+avx / +sse3)",
+                text="Exploration. Every kernel value must lie within (L/8+8)*eps*sum|w*s| of the exact dot product, return no NaN when only the outside of the window is NaN, and resamplers built on each kernel (and the dispatching constructor) must produce the same stream; over-reads of more than one element are heap OOB for ASan/Miri.",
+                note="NEON is not compiled on x86_64 (out of reach). Miri +avx runs with Tree Borrows (the wide-load-through-element-reference idiom is flagged by Stacked Borrows only).", design="5/C15"),
+    "C18": dict(technique="runtime monitoring: per-call output hashes of concurrently driven, thread-migrating instances vs a single-threaded reference; ThreadSanitizer and Miri data-race detection on the same workload",
+                text="Exploration. Up to 16 threads construct and drive instances from a shared pool (instances migrate at call boundaries, random yields/spins); every per-call hash must equal the single-threaded reference and neither TSan nor Miri may report a race.",
+                note="Schedules are sampled, not enumerated; evidence reports migrations, distinct (instance,thread) pairs and distinct per-instance thread sequences actually observed.", design="5/C18"),
+})
